@@ -257,6 +257,76 @@ func genCarry(r *rng.R) Ver {
 	return v
 }
 
+func succNum(s string) string {
+	n, err := strconv.ParseUint(s, 10, 62)
+	if err != nil {
+		return s
+	}
+	return strconv.FormatUint(n+1, 10)
+}
+
+// an atom for ~ / =* whose last given component sits just below a carry, and the candidate
+// that is the successor at exactly that component (the first version the range must exclude)
+func genBoundary(r *rng.R) (Ver, Ver) {
+	a := genVer(r)
+	a.HasRev = false
+	edge := func(maxd int) string {
+		switch r.Intn(5) {
+		case 0:
+			return []string{"8", "9", "18", "19", "98", "99", "199", "899", "9998", "9999", "99998"}[r.Intn(11)]
+		case 1:
+			return strconv.Itoa(r.Intn(3)*10 + 8 + r.Intn(2))
+		}
+		return genNum(r, maxd)
+	}
+	switch r.Intn(4) {
+	case 0: // number part only
+		a.Letter, a.Sufs = "", nil
+		a.Nums[len(a.Nums)-1] = edge(5)
+	case 1: // letter
+		a.Sufs = nil
+		a.Letter = []string{"a", "x", "y", "z", "m"}[r.Intn(5)]
+	case 2: // numbered suffix
+		a.Sufs = []Suf{{Kind: r.Intn(5), HasNum: true, Num: edge(4)}}
+	case 3: // suffix and revision
+		a.Sufs = []Suf{{Kind: r.Intn(5), HasNum: true, Num: genNum(r, 3)}}
+		a.HasRev, a.Rev = true, edge(4)
+	}
+	v := clone(a)
+	switch {
+	case v.HasRev:
+		v.Rev = succNum(v.Rev)
+	case len(v.Sufs) > 0:
+		if r.Chance(1, 4) && v.Sufs[0].Kind < 4 {
+			v.Sufs[0].Kind++
+		} else {
+			v.Sufs[0].Num = succNum(v.Sufs[0].Num)
+		}
+	case v.Letter != "":
+		if v.Letter < "z" {
+			v.Letter = string(v.Letter[0] + 1)
+		} else {
+			v.Nums[len(v.Nums)-1] = succNum(v.Nums[len(v.Nums)-1])
+		}
+	default:
+		v.Nums[len(v.Nums)-1] = succNum(v.Nums[len(v.Nums)-1])
+	}
+	// half of the time something follows the boundary component
+	switch r.Intn(6) {
+	case 0:
+		v.HasRev, v.Rev = true, genNum(r, 2)
+	case 1:
+		if len(v.Sufs) == 0 {
+			v.Sufs = []Suf{genSuf(r, 3)}
+		}
+	case 2:
+		if v.Letter == "" && len(v.Sufs) == 0 {
+			v.Nums = append(v.Nums, genNum(r, 2))
+		}
+	}
+	return a, v
+}
+
 func genUse(r *rng.R, in *Input, n int) {
 	for i := 0; i < n; i++ {
 		f := flagPool[r.Intn(len(flagPool))]
@@ -379,9 +449,16 @@ func genInput(r *rng.R) (Input, []string) {
 	}
 	in.HasVer = true
 	in.Op = r.Intn(7)
-	kind := r.Intn(20)
+	kind := r.Intn(22)
 	useFocus, slotFocus := false, false
 	switch {
+	case kind >= 20: // the first version beyond a range
+		cl = append(cl, "boundary")
+		in.Op = 5 + r.Intn(2)
+		in.AVer, in.PVer = genBoundary(r)
+		if in.Op == 5 {
+			in.AVer.HasRev, in.AVer.Rev = false, ""
+		}
 	case kind < 7: // near pair inside the normal form's domain
 		cl = append(cl, "near")
 		in.AVer = genVer(r)
